@@ -78,8 +78,9 @@ class Report:
         print('  ' + what, flush=True)
 
     def known_finding(self, key, what=None):
+        first = key not in [k for k, _ in self.known_hits]
         self.known_hits.append((key, what or self.known.get(key, '')))
-        if getattr(self, 'quiet', False):
+        if getattr(self, 'quiet', False) or not first:
             return
         print('KNOWN-FINDING: property=%s %s' % (self.pid, what or self.known.get(key, key)), flush=True)
 
